@@ -152,3 +152,18 @@ impl Client {
         Ok(out)
     }
 }
+
+/// Run another slice of this executable (`<exe> <slice> <tier>`) and parse its `<slice>-RESULT` line.
+pub fn run_slice(slice: &str, tier: &str) -> Result<serde_json::Value, String> {
+    let exe = std::env::current_exe().map_err(|e| format!("{e}"))?;
+    let out = Command::new(exe).arg(slice).arg(tier).output().map_err(|e| format!("{e}"))?;
+    let stdout = String::from_utf8_lossy(&out.stdout);
+    let prefix = format!("{slice}-RESULT ");
+    let line = stdout.lines().find_map(|l| l.strip_prefix(prefix.as_str())).ok_or_else(|| format!("no result line; exit {:?}; stderr: {}", out.status.code(), String::from_utf8_lossy(&out.stderr)))?;
+    serde_json::from_str(line).map_err(|e| format!("bad result: {e}"))
+}
+
+/// The violations of a slice result whose signature starts with `prefix`, as a bag JSON array.
+pub fn violations_with_prefix(v: &serde_json::Value, prefix: &str) -> serde_json::Value {
+    serde_json::Value::Array(v["violations"].as_array().cloned().unwrap_or_default().into_iter().filter(|x| x["sig"].as_str().map(|s| s.starts_with(prefix)).unwrap_or(false)).collect())
+}
